@@ -210,8 +210,8 @@ func c20Run(c *vcore.Ctx) *vcore.Violation {
 	var ctrls []string
 	if mode == "v1" || mode == "fake1" {
 		names := []string{"cpu", "cpuacct", "memory", "pids"}
-		if mode == "v1" {
-			names = append(names, "cpuset") // (real hierarchy only: a new cpuset group takes its cpus and mems from its parent)
+		if _, err := os.Stat(filepath.Join(cgBase, "cpuset", "cpuset.cpus")); mode == "v1" && err == nil {
+			names = append(names, "cpuset") // (real hierarchy only, where there is one: a new cpuset group takes its cpus and mems from its parent)
 		}
 		for _, n := range names {
 			if src.Bool(2, 3, "ctrl") {
